@@ -170,7 +170,7 @@ def supervise(binary, jobs, stall_s=20, max_restarts=50):
                 elif rc != 0:
                     raise ToolError("harness job failed rc=%s: %s" % (rc, pr["p"].stderr.read()[-2000:] if pr["p"].stderr else ""))
                 continue
-            if now - pr["t_hb"] > stall_s and hb is not None and hb != DONE:
+            if now - pr["t_hb"] > max(stall_s, j.get("stall_s", 0)) and hb is not None and hb != DONE:
                 pr["p"].kill()
                 pr["p"].wait()
                 procs.remove(pr)
